@@ -213,8 +213,8 @@ func (w *World) NewDialed(small bool) (*Obj, error) {
 	}
 	o := &Obj{Kind: KConnDialed, FD: conn, Raw: conn.RawFd(), Peer: peer, Small: small}
 	if small {
-		rawpeer.SetBufs(o.Raw, 4096, 4096)
-		rawpeer.SetBufs(peer, 4096, 4096)
+		rawpeer.SetBufs(o.Raw, 8192, 0)
+		rawpeer.SetBufs(peer, 8192, 0)
 	}
 	return w.add(o), nil
 }
@@ -290,8 +290,8 @@ func (w *World) NewAccepted(small bool) (*Obj, error) {
 	o := w.adoptAccepted(l, conn)
 	o.Small = small
 	if small && o.Peer >= 0 {
-		rawpeer.SetBufs(o.Raw, 4096, 4096)
-		rawpeer.SetBufs(o.Peer, 4096, 4096)
+		rawpeer.SetBufs(o.Raw, 8192, 0)
+		rawpeer.SetBufs(o.Peer, 8192, 0)
 	}
 	// the helper listener is closed and dropped from the world
 	w.rawClose(l)
@@ -323,8 +323,8 @@ func (w *World) NewAdapter(small bool) (*Obj, error) {
 	}
 	o := &Obj{Kind: KAdapter, FD: ad, Raw: ad.RawFd(), Peer: peer, keep: nc, Small: small}
 	if small {
-		rawpeer.SetBufs(o.Raw, 4096, 4096)
-		rawpeer.SetBufs(peer, 4096, 4096)
+		rawpeer.SetBufs(o.Raw, 8192, 0)
+		rawpeer.SetBufs(peer, 8192, 0)
 	}
 	return w.add(o), nil
 }
